@@ -710,8 +710,8 @@ def diff(state: State, other: State) -> State:
   if not other:
     return state
 
-  self_flat = to_flat_state(state)
-  other_flat = to_flat_state(other)
+  self_flat = dict(to_flat_state(state))
+  other_flat = dict(to_flat_state(other))
   diff = {k: v for k, v in self_flat.items() if k not in other_flat}
 
   return from_flat_state(diff)
